@@ -499,7 +499,16 @@ def rule_raise_exit(model):
     return r
 
 
-RULES = [rule_return, rule_placement, rule_raise_exit]
+def _inl(rule):
+    """Run a rule on the view in which helpers that are new w.r.t. the
+    reference tree are inlined at their call sites (normalise.N2)."""
+    def run(model):
+        return rule(model.inlined_view())
+    run.__name__ = rule.__name__
+    return run
+
+
+RULES = [_inl(rule_return), _inl(rule_placement), _inl(rule_raise_exit)]
 EXPLANATION = (
     'Who-may-catch analysis: least set of functions that can let DTReturn '
     'out (call graph incl. the block dispatch of render_blocks_), every try '
